@@ -40,7 +40,11 @@ func (p *plan) String() string {
 		case "SwapSpans":
 			parts = append(parts, "SwapSpans("+strconv.Itoa(o.I)+","+strconv.Itoa(o.J)+","+strconv.Itoa(o.K)+")/"+o.Z)
 		case "ReplaceTokenClass":
-			parts = append(parts, "Replace("+o.X+"->"+o.Y+","+o.Z+")")
+			if o.Z == "nth" {
+				parts = append(parts, "Replace("+o.X+"->"+o.Y+",#"+strconv.Itoa(o.I)+")")
+			} else {
+				parts = append(parts, "Replace("+o.X+"->"+o.Y+","+o.Z+")")
+			}
 		case "Nest":
 			parts = append(parts, "Nest("+o.X+","+strconv.Itoa(o.I)+","+o.Y+")")
 		case "HeaderEdit":
@@ -117,7 +121,7 @@ func applyOp(d []byte, o mop) []byte {
 			return bytes.Repeat([]byte("\r\n\t "), 16)
 		}
 	case "ReplaceTokenClass":
-		return replaceTokens(d, o.X, o.Y, o.Z)
+		return replaceTokens(d, o.X, o.Y, o.Z, o.I)
 	case "Nest":
 		return nest(d, o.X, o.I, o.Y)
 	case "HeaderEdit":
@@ -136,6 +140,22 @@ func tokens(d []byte, class string) []span {
 	out := []span{}
 	in := func(c byte, set string) bool { return strings.IndexByte(set, c) >= 0 }
 	switch class {
+	case "word":
+		isw := func(c byte) bool {
+			return c >= '0' && c <= '9' || c >= 'a' && c <= 'z' || c >= 'A' && c <= 'Z' || c == '_' || c == '-' || c == '.'
+		}
+		for i := 0; i < len(d); {
+			if isw(d[i]) {
+				j := i
+				for j < len(d) && isw(d[j]) {
+					j++
+				}
+				out = append(out, span{i, j})
+				i = j
+			} else {
+				i++
+			}
+		}
 	case "digits":
 		for i := 0; i < len(d); {
 			if d[i] >= '0' && d[i] <= '9' {
@@ -150,7 +170,7 @@ func tokens(d []byte, class string) []span {
 			}
 		}
 	default:
-		set := map[string]string{"quote": "\"'", "open": "{[<(", "close": "}]>)", "newline": "\n", "sep": ":=,"}[class]
+		set := map[string]string{"quote": "\"'", "open": "{[<(", "close": "}]>)", "newline": "\n", "sep": ":=,", "slash": "/\\"}[class]
 		for i := 0; i < len(d); i++ {
 			if in(d[i], set) {
 				out = append(out, span{i, i + 1})
@@ -199,7 +219,7 @@ func replacement(tok []byte, class, repl string) []byte {
 	return tok
 }
 
-func replaceTokens(d []byte, class, repl, sel string) []byte {
+func replaceTokens(d []byte, class, repl, sel string, nth int) []byte {
 	toks := tokens(d, class)
 	if len(toks) == 0 {
 		return d
@@ -209,6 +229,11 @@ func replaceTokens(d []byte, class, repl, sel string) []byte {
 		toks = toks[:1]
 	case "last":
 		toks = toks[len(toks)-1:]
+	case "nth":
+		if nth >= len(toks) {
+			return d
+		}
+		toks = toks[nth : nth+1]
 	}
 	out := make([]byte, 0, len(d))
 	prev := 0
